@@ -61,10 +61,27 @@ def mk_target(name):
         return {'a': 2, 'f': Fn('f'), 'g': Fn('g', ValueError), 'l': [10, 11, 12], 0: 'zero'}
     if name == 'obj':
         return Ob()
+    if name == 'dictsub':
+        return Lenient({'a': 2, 'l': [10, 11, 12], 0: 'zero', 'f': Fn('f')})
     raise ValueError(name)
 
 
-TARGETS = ['int', 'float', 'str', 'list', 'dict', 'obj']
+class Lenient(dict):
+    """a mapping with an item access of its own: unknown keys are served by __missing__, 'A' is an alias"""
+    __slots__ = ()
+
+    def __getitem__(self, key):
+        if key == 'zz':
+            return 'served by __getitem__'
+        return dict.__getitem__(self, key)
+
+    def __missing__(self, key):
+        if key == 5:
+            raise KeyError(key)
+        return ('missing', key)
+
+
+TARGETS = ['int', 'float', 'str', 'list', 'dict', 'obj', 'dictsub']
 
 # argument terms: {'lit': v} | {'T': ops} | {'spec': path} | {'list': [...]} | {'tuple': [...]} | {'slice': [a,b,c]}
 LIT = lambda v: {'lit': v}
@@ -92,6 +109,8 @@ CALLS = [
     [[], {'k': TA}],
     [[{'list': [TA, LIT('lit')]}], {}],
     [[LIT(1), {'spec': 'a'}], {'z': LIT(None)}],
+    [[{'dictitems': [[TA, LIT('v')], [LIT('k'), TA]]}], {}],                       # a spec in KEY position of a dict argument
+    [[], {'rows': {'list': [{'dictitems': [[{'spec': 'a'}, LIT(1)]]}]}}],
 ]
 for a, kw in CALLS:
     OPS.append(['(', a, kw])
@@ -136,6 +155,8 @@ def build_arg(term):
         return tuple(build_arg(x) for x in term['tuple'])
     if 'slice' in term:
         return slice(*term['slice'])
+    if 'dictitems' in term:
+        return {build_arg(k): build_arg(v) for k, v in term['dictitems']}
     raise ValueError(term)
 
 
@@ -176,6 +197,8 @@ def ref_arg(term, target):
         return tuple(ref_arg(x, target) for x in term['tuple'])
     if 'slice' in term:
         return slice(*term['slice'])
+    if 'dictitems' in term:
+        return {ref_arg(k, target): ref_arg(v, target) for k, v in term['dictitems']}
 
 
 def ref_chain(target, ops):
